@@ -34,7 +34,7 @@ func init() {
 	}})
 }
 
-var c20States = []string{"intact", "repairable", "mangled", "noparity-mangled", "unrepairable", "noparity-damaged", "noparity-intact", "damaged-index", "missing-index", "usage", "create"}
+var c20States = []string{"parity-gap", "intact", "repairable", "mangled", "noparity-mangled", "unrepairable", "noparity-damaged", "noparity-intact", "damaged-index", "missing-index", "usage", "create"}
 
 func (c *c20) Cases(tier string, seed int64) []core.Case {
 	var cs []core.Case
@@ -136,6 +136,11 @@ func (c *c20) Run(cs core.Case) core.Result {
 	}
 	expect := func(what string, got cliRun, want string) {
 		r.Count("invocations", 1)
+		// A Go panic exits with status 2, which is also "repair not possible":
+		// a crash is recognised by its trace, whatever the status.
+		if strings.Contains(got.out, "panic: ") || strings.Contains(got.out, "fatal error: ") || strings.Contains(got.out, "goroutine 1 [") || got.signal != "" {
+			r.Violate(fmt.Sprintf("process-crashed|%s|%s", p.Fmt, what), "%s [%s, state %s, cwd=%s]: the process crashed (status %d %s): %s", what, p.Fmt, p.State, p.Cwd, got.exit, got.signal, tailStr(got.out, 700))
+		}
 		ok := false
 		switch want {
 		case "0", "1", "2", "3":
@@ -179,6 +184,27 @@ func (c *c20) Run(cs core.Case) core.Result {
 		expect(rw, repair(), "0")
 		if d := scen.DiffSnap(before, scen.Snapshot(top)); len(d) > 0 {
 			r.Violate("repair-of-intact-set-changed-files", "%v", d)
+		}
+	case "parity-gap":
+		// the FIRST recovery file is gone, a later one survives; data intact
+		first := "a.vol00+01.par2"
+		if p.Fmt == "par1" {
+			first = "a.p01"
+		}
+		os.Remove(filepath.Join(setDir, first))
+		expect(vw, verify(), "0")
+		if p.Fmt == "par1" {
+			expect("verify-a", runPar(cwd, "v", "-a", idx), "0")
+			expect("verify-plain", runPar(cwd, "v", idx), "0")
+		}
+		expect(rw, repair(), "0")
+		expect("repair-doublecheck", runPar(cwd, "r", "-doublecheck", idx), "0")
+		// and with one damaged file: still within capacity
+		flip(0)
+		expect("verify-damaged", runPar(cwd, "v", idx), "1")
+		expect("repair-damaged-doublecheck", runPar(cwd, "r", "-doublecheck", idx), "0")
+		if bad := allOriginal(); len(bad) > 0 {
+			r.Violate("exit-0-contradicted-by-disk|repair", "repair exited 0 but %v are not the originals", bad)
 		}
 	case "repairable":
 		switch {
@@ -247,7 +273,12 @@ func (c *c20) Run(cs core.Case) core.Result {
 	case "noparity-intact":
 		removeVolumes()
 		expect(vw, verify(), "0")
+		if p.Fmt == "par1" {
+			expect("verify-a", runPar(cwd, "v", "-a", idx), "0")
+			expect("verify-plain", runPar(cwd, "v", idx), "0")
+		}
 		expect(rw, repair(), "0")
+		expect("repair-doublecheck", runPar(cwd, "r", "-doublecheck", idx), "0")
 	case "damaged-index":
 		b, _ := os.ReadFile(filepath.Join(setDir, w.idxName))
 		switch rng.Intn(3) {
